@@ -97,6 +97,36 @@ def cases(ctx):
             c = copy.deepcopy(base)
             setp(c, path, cl[k])
             add([("e.yaml", json.dumps(c))], k, "cert:" + "/".join(map(str, path)))
+    # structural damage that still looks like the schema: a key removed, a list or map emptied
+    def containers(obj, path=()):
+        if isinstance(obj, dict):
+            yield path, obj
+            for k, v in obj.items():
+                yield from containers(v, path + (k,))
+        elif isinstance(obj, list):
+            yield path, obj
+            for i, v in enumerate(obj):
+                yield from containers(v, path + (i,))
+    def getp(obj, path):
+        for p_ in path:
+            obj = obj[p_]
+        return obj
+    for base, prefix, files_of in ((full, "cert:", lambda c: [("e.yaml", json.dumps(c))]),):
+        for path, val in slots(base):
+            if isinstance(path[-1], str) and len(path) > 1:
+                c = copy.deepcopy(base)
+                del getp(c, path[:-1])[path[-1]]
+                add(files_of(c), "key removed", prefix + "/".join(map(str, path)))
+        for path, val in containers(base):
+            if not path:
+                continue
+            c = copy.deepcopy(base)
+            setp(c, path, [] if isinstance(val, list) else {})
+            add(files_of(c), "container emptied", prefix + "/".join(map(str, path)))
+            if isinstance(val, list) and val:
+                c = copy.deepcopy(base)
+                setp(c, path, val + val)
+                add(files_of(c), "list doubled", prefix + "/".join(map(str, path)))
     # profile slots (the certificate under test references the profile)
     P, C = PROFILE(), WITHPROF()
     P["extensions"].append({"custom": {"oid": "1.2.3.77", "raw": "!binary:AQ=="}})
